@@ -220,3 +220,31 @@ _build14c = build
 def build(eng, tier):
     _build14c(eng, tier)
     add_toposort_flag_target(eng)
+
+
+def add_default_attributes_flag_target(eng):
+    """_add_default_attributes_to_node (AddDefaultAttributesPass): `reports modified=False only if [nothing changed]` - the
+    function returns False only if it made no IR edit at all.  The symbolic edit counter g_edits is incremented by every event
+    that may change IR state (here: the store into node.attributes); the loop over the schema's attributes is cut with
+    `an edit has happened => modified is already True`."""
+    DA = "onnx_ir.passes.common.default_attributes"
+    schema.core_ir(eng)
+    eng.classes["Node"].fields.setdefault("version", TOpt(INT))
+
+    def setup(e, p, env):
+        e.lenient = True
+        e.functions["onnx_ir.serde.deserialize_attribute"] = FnDecl("onnx_ir.serde.deserialize_attribute", "opaque", raises={"AnyException": []})
+    t = Target("_add_default_attributes_to_node", mod=DA, qual="_add_default_attributes_to_node", setup=setup,
+        params={"node": TRef("Node"), "opset_imports": eng.DICT(STR, INT)}, requires=["nonnull(node)", "nonnull(opset_imports)"],
+        ghost_init="g_edits = 0",
+        loops={"for (attr_name, attr_def) in op_schema.attributes.items()": LoopSpec(invariant=["implies(g_edits > 0, modified)"], modifies=[])},
+        ensures=["implies(result == False, g_edits == 0)"], raises_default=[], assert_mode="raise")
+    eng.add_target(t)
+
+
+_build14d = build
+
+
+def build(eng, tier):
+    _build14d(eng, tier)
+    add_default_attributes_flag_target(eng)
